@@ -3,6 +3,8 @@
 # breaks (quick tier), record what the check reports, undo the change.  Usage: seeded_matrix.sh [ids...]
 cd "$(dirname "$0")/.."
 ids=${@:-$(ls seeded)}
+# evidence/ must describe the unchanged tree: keep it aside while changed trees are checked
+rm -rf .cache/evidence.keep; cp -a evidence .cache/evidence.keep
 for id in $ids; do
   d=seeded/$id
   p=$d/patch.diff
@@ -20,4 +22,5 @@ for id in $ids; do
   echo "$id: rc=$rc violations=$nv no-failing-input=$nf patch=$(basename $p) :: $last"
   echo "$out" | grep '^VIOLATION' | head -1 | sed 's/^/    /'
 done
+rm -rf evidence; mv .cache/evidence.keep evidence
 git -C /repo status --short
